@@ -23,8 +23,13 @@ def build(P, rs, name="sdm", spelling=0):
     bf = m.biflow("bf"); bf.equation = c1
     fout = m.flow("fout"); fout.equation = qf * s1
     fo2 = m.flow("fo2"); fo2.equation = g
-    s1.initial_value = f(P["s0"]); s1.equation = fin - fout - fo2
-    s2.initial_value = 0.0; s2.equation = bf + fout
+    # the net flow of a stock in several spellings of the same mathematics (number * element, negation, grouping)
+    s1.initial_value = f(P["s0"])
+    s1.equation = [lambda: fin - fout - fo2, lambda: fin - (fout + fo2), lambda: -1.0 * fout + fin - fo2, lambda: fin - 1.0 * (fout + fo2),
+                   lambda: (-fout) + fin + (-fo2)][spelling % 5]()
+    s2.initial_value = 0.0
+    s2.equation = [lambda: bf + fout, lambda: 1.0 * bf + fout, lambda: fout + bf * 1.0, lambda: 2.0 * bf + fout - bf,
+                   lambda: 0.5 * (bf + fout) + (fout + bf) / 2.0, lambda: fout - (-bf), lambda: 3 * fout + bf - 2 * fout][spelling % 7]()
     points = [[f(x), f(y)] for x, y in P["pts"]]
     m.points["tab"] = points
     # functions of elements written directly in a stock's equation, in several spellings of the same mathematics
